@@ -63,22 +63,39 @@ def main():
         from slimta.envelope import Envelope
         from slimta.relay import TransientRelayError, PermanentRelayError
         from slimta.relay.pipe import PipeRelay
-        for per in (True, False):
+        import tempfile
+        import time as _rt
+        mdir = tempfile.mkdtemp(prefix='c14pipe', dir=os.path.dirname(out))
+        # (per-recipient mode, recipients, index of the recipient whose delivery program outlives the timeout)
+        for per, nr, k in ((True, 1, 0), (False, 1, 0), (True, 2, 0), (True, 2, 1), (True, 3, 1), (True, 3, 2), (False, 3, 0)):
             vt.CLOCK.reset(1000.0)
             cls = type('P', (PipeRelay,), {'per_recipient': per})
-            relay = cls(['sh', '-c', 'sleep 2'], timeout=7)
-            env = Envelope('s@x', ['r0@x'])
+            marker = os.path.join(mdir, 'm-%d-%d-%d' % (per, nr, k))
+            if per:
+                sh = 'case "$1" in r%d@*) touch %s; sleep 2;; esac; cat >/dev/null' % (k, marker)
+            else:
+                sh = 'touch %s; sleep 2' % marker
+            relay = cls(['sh', '-c', sh, 'x', '{recipient}'], timeout=7)
+            env = Envelope('s@x', ['r%d@x' % i for i in range(nr)])
             env.parse(b'Subject: t\r\n\r\nbody\r\n')
-            ev = [{'t': 'call', 'req': 1, 'nrcpt': 1, 'now': 1000},
-                  {'t': 'peer', 'stage': 'exit', 'i': 0, 'act': 'stall', 'code': 0, 'conn': 0, 'trans': 0, 'now': 1000}]
+            ev = [{'t': 'call', 'req': 1, 'nrcpt': nr, 'now': 1000}]
+            for i in range(nr if per else 0):
+                ev.append({'t': 'peer', 'stage': 'rcpt', 'i': i, 'act': 'code', 'code': 250, 'conn': 0, 'trans': 0, 'now': 1000})
+            for i in range(k if per else 0):     # the programs run one after the other: these finished with status 0
+                ev.append({'t': 'peer', 'stage': 'eod', 'i': i, 'act': 'code', 'code': 250, 'conn': 0, 'trans': 0, 'now': 1000})
+            ev.append({'t': 'peer', 'stage': 'exit', 'i': k, 'act': 'stall', 'code': 0, 'conn': 0, 'trans': 0, 'now': 1000})
             res = {}
 
             def run():
                 try:
                     r = relay.attempt(env, 0)
-                    v = list(r.values())[0] if isinstance(r, dict) else r
-                    res['r'] = {'kind': 'map' if isinstance(r, dict) else 'whole', 'cls': '',
-                                'per': ['T' if isinstance(v, TransientRelayError) else 'P' if isinstance(v, PermanentRelayError) else 'ok']}
+                    if isinstance(r, dict):
+                        vs = [r.get(x) for x in env.recipients]       # a recipient without an entry counts as delivered
+                        res['r'] = {'kind': 'map', 'cls': '',
+                                    'per': ['T' if isinstance(v, TransientRelayError) else 'P' if isinstance(v, PermanentRelayError) else 'ok'
+                                            for v in vs]}
+                    else:
+                        res['r'] = {'kind': 'whole', 'cls': '', 'per': ['ok'] * nr}
                 except TransientRelayError:
                     res['r'] = {'kind': 'raise', 'cls': 'T', 'per': []}
                 except PermanentRelayError:
@@ -87,7 +104,10 @@ def main():
                     res['r'] = {'kind': 'raise', 'cls': 'other', 'per': [], 'exc': type(e).__name__}
                 res['now'] = int(vt.CLOCK.now)
             g = gevent.spawn(run)
-            gevent.sleep(0.2)
+            t_end = _rt.time() + 20
+            while not os.path.exists(marker) and _rt.time() < t_end and not g.ready():
+                gevent.sleep(0.02)
+            gevent.sleep(0.05)
             vt.settle()
             vt.CLOCK.fire_next()
             vt.settle()
@@ -104,6 +124,8 @@ def main():
             f.write(json.dumps({'id': shard + n * nshards, 'cls': 'relaystall-pipe', 'cfg': {'lmtp': True, 'pipelining': False, 'kind': 'smtp',
                                 'deadline': 1007, 'stage': 'exit'}, 'ev': ev}, separators=(',', ':')) + '\n')
             n += 1
+        import shutil
+        shutil.rmtree(mdir, ignore_errors=True)
     # HTTP relay: a peer that accepts the request and never answers; a peer that never accepts
     if shard == 1:
         from harness import hdrv
